@@ -6,26 +6,32 @@ package util
 // Unsafe re-views of the same bytes: trusted frames and length facts (element equations are not modelled).
 
 //@ func Bytes2Float64Slice
+//@   mode any
 //@   trusted unsafe re-view of the same bytes
 //@   ensures len(result) == len(b) / 8
 //@   assigns nothing
 //@ func Bytes2Uint64Slice
+//@   mode any
 //@   trusted unsafe re-view of the same bytes
 //@   ensures len(result) == len(b) / 8
 //@   assigns nothing
 //@ func Bytes2Int64Slice
+//@   mode any
 //@   trusted unsafe re-view of the same bytes
 //@   ensures len(result) == len(b) / 8
 //@   assigns nothing
 //@ func Float64Slice2byte
+//@   mode any
 //@   trusted unsafe re-view of the same bytes
 //@   ensures len(result) == len(b) * 8
 //@   assigns nothing
 //@ func Int64Slice2byte
+//@   mode any
 //@   trusted unsafe re-view of the same bytes
 //@   ensures len(result) == len(b) * 8
 //@   assigns nothing
 //@ func Uint64Slice2byte
+//@   mode any
 //@   trusted unsafe re-view of the same bytes
 //@   ensures len(result) == len(b) * 8
 //@   assigns nothing
@@ -39,6 +45,7 @@ package util
 //@   assigns nothing
 
 //@ func Bytes2str
+//@   mode any
 //@   trusted unsafe re-view of the same bytes as a string
 //@   ensures len(result) == len(b)
 //@   assigns nothing
